@@ -270,11 +270,17 @@ def _do(w, op):
     elif kind in ("is_subclass", "is_superclass"):
         other = _other_av(w, op[1])
         ospec = tuple(S.to_spec(p) for p in op[1])
+        try:
+            got = av.is_subclass(other) if kind == "is_subclass" else other.is_subclass(av)
+        except NotImplementedError:
+            # declining to compare with / from a mesh class (as is_finite etc. do) does
+            # not disagree with anything; for two classical bases it is a failure
+            if w.mesh or any(S.is_mesh(q) for q in ospec):
+                return
+            raise
         if kind == "is_subclass":
-            got = av.is_subclass(other)
             want, decided = w.subclass_want(w.spec, ospec)
         else:
-            got = other.is_subclass(av)
             want, decided = w.subclass_want(ospec, w.spec)
         if decided and bool(got) is not want:
             w.fail(f"Av{w.spec}.{kind}(Av{ospec}) = {got!r}, by comparing the levels: {want}")
